@@ -240,6 +240,10 @@ class InjectedFault(RuntimeError):
     '''a transient fault of the environment injected by the harness'''
 
 
+class InjectedIOFault(OSError, InjectedFault):
+    '''the same for file I/O (what open()/write() would raise)'''
+
+
 class StubDB:
     '''registered as dawgie.db.verifstub; dawgie.db dispatches to it when
     dawgie.context.db_impl == 'verifstub' '''
